@@ -6,6 +6,13 @@
 //!                               ignored here - the implementation parses for itself)
 //!   B hex                       a chunk of bytes the reader hands out
 //!   E kind                      the next read fails once with this io::ErrorKind
+//!   G                           an HTTP client asks NOW - the connection has handed out the events
+//!                               before this op and is asked for more; the reader stays silent until the
+//!                               answers are in: GET /routers/ (real RouterListApi), GET /routers/<id> (real
+//!                               RouterInfoApi of this connection) and the unit's metrics as /metrics renders
+//!                               them. Observed `g:L<status>,I<status>,m<0|1>` and, in full mode,
+//!                               `,e<number of recent parse errors the page lists>,o<1 iff oldest first>`;
+//!                               `g:-` if the session ended before the reader got there.
 //!   Z eof | Z hang              what the reader does when the script is exhausted: end of
 //!                               file (default), or stay pending - the harness then terminates
 //!                               the unit's gate (unit shutdown)
@@ -56,7 +63,14 @@ pub const KINDS: [(&str, ErrorKind); 21] = [
 ];
 
 #[derive(Clone)]
-enum Ev { Bytes(Vec<u8>), Err(ErrorKind, &'static str) }
+enum Ev { Bytes(Vec<u8>), Err(ErrorKind, &'static str), Get }
+
+/// hand-over between the scripted reader (which stays pending at a `G`) and the task that asks the pages
+struct GetShared {
+    served: AtomicUsize,
+    waker: Mutex<Option<std::task::Waker>>,
+    tx: tokio::sync::mpsc::UnboundedSender<()>,
+}
 
 #[derive(Default)]
 struct Stats {
@@ -73,10 +87,13 @@ struct ScriptReader {
     eof_reads: usize,
     stats: Arc<Stats>,
     hang_tx: Option<tokio::sync::oneshot::Sender<()>>,
+    gets: Option<Arc<GetShared>>,
+    gets_passed: usize,
+    get_asked: bool,
 }
 
 impl AsyncRead for ScriptReader {
-    fn poll_read(self: Pin<&mut Self>, _cx: &mut Context<'_>, buf: &mut ReadBuf<'_>) -> Poll<std::io::Result<()>> {
+    fn poll_read(self: Pin<&mut Self>, cx: &mut Context<'_>, buf: &mut ReadBuf<'_>) -> Poll<std::io::Result<()>> {
         let me = self.get_mut();
         if buf.remaining() == 0 {
             return Poll::Ready(Ok(()));
@@ -98,6 +115,17 @@ impl AsyncRead for ScriptReader {
                     me.stats.consumed.fetch_add(1, SeqCst);
                     *me.stats.last.lock().unwrap() = format!("e-{name}");
                     return Poll::Ready(Err(k.into()));
+                }
+                Some(Ev::Get) => {
+                    // the reader is silent while the HTTP client is served
+                    let Some(g) = me.gets.clone() else { me.idx += 1; continue; };
+                    if g.served.load(SeqCst) > me.gets_passed {
+                        me.gets_passed += 1; me.get_asked = false; me.idx += 1; continue;
+                    }
+                    *g.waker.lock().unwrap() = Some(cx.waker().clone());
+                    if !me.get_asked { me.get_asked = true; let _ = g.tx.send(()); }
+                    if g.served.load(SeqCst) > me.gets_passed { continue; }
+                    return Poll::Pending;
                 }
                 None if me.hang => {
                     *me.stats.last.lock().unwrap() = "hang".into();
@@ -129,7 +157,7 @@ fn hex(b: &[u8]) -> String { b.iter().map(|x| format!("{x:02x}")).collect() }
 /// non-fatal error that the code has.
 fn declares_huge(evs: &[Ev]) -> bool {
     let mut flat: Vec<Option<u8>> = vec![];
-    for e in evs { match e { Ev::Bytes(b) => flat.extend(b.iter().map(|x| Some(*x))), Ev::Err(..) => flat.push(None) } }
+    for e in evs { match e { Ev::Bytes(b) => flat.extend(b.iter().map(|x| Some(*x))), Ev::Err(..) => flat.push(None), Ev::Get => {} } }
     let mut i = 0;
     'outer: while i < flat.len() {
         let mut h = vec![];
@@ -242,6 +270,50 @@ fn kind_char(u: &Update) -> &'static str {
     }
 }
 
+/// (seconds part, nanoseconds) of an RFC 3339 time as chrono prints it for Utc: `YYYY-MM-DDTHH:MM:SS[.fraction]+00:00`
+fn rfc3339_key(t: &str) -> Option<(String, u64)> {
+    let t = t.trim();
+    if t.len() < 19 { return None; }
+    let (secs, rest) = t.split_at(19);
+    let frac: String = rest.strip_prefix('.').map(|r| r.chars().take_while(|c| c.is_ascii_digit()).collect()).unwrap_or_default();
+    let mut ns = frac.clone();
+    while ns.len() < 9 { ns.push('0'); }
+    Some((secs.to_string(), ns[..9].parse().ok()?))
+}
+
+/// One visit of the HTTP client: router list, this router's page, the metrics. Each request runs in a task of
+/// its own, as hyper runs a request handler: a panic kills that task only and shows here as `panic`.
+async fn ask_pages(fx: &Arc<StreamFixture>, full: bool) -> String {
+    let status = |r: Result<Option<(u16, Vec<u8>)>, tokio::task::JoinError>| -> (String, Vec<u8>) {
+        match r {
+            Ok(Some((st, body))) => (st.to_string(), body),
+            Ok(None) => ("none".into(), vec![]),
+            Err(e) if e.is_panic() => ("panic".into(), vec![]),
+            Err(_) => ("cancelled".into(), vec![]),
+        }
+    };
+    let f = fx.clone();
+    let (l, lbody) = status(tokio::spawn(async move { f.http_get_router_list().await }).await);
+    let f = fx.clone();
+    let (i, ibody) = status(tokio::spawn(async move { f.http_get_router_info().await }).await);
+    let f = fx.clone();
+    let m = match tokio::task::spawn_blocking(move || f.metrics_prometheus()).await {
+        Ok(text) => if text.contains("bmp") { "1" } else { "0" },
+        Err(_) => "panic",
+    };
+    // a page is a page: the list has the row of this connection's router (the link to its page)
+    let link = format!("href=\"{}{}\"", StreamFixture::HTTP_API_PATH, fx.router_id);
+    let l = if l == "200" && !String::from_utf8_lossy(&lbody).contains(&link) { "200-unlisted".to_string() } else { l };
+    let page = String::from_utf8_lossy(&ibody).to_string();
+    let mut tok = format!("g:L{l},I{i},m{m}");
+    if full {
+        let whens: Vec<Option<(String, u64)>> = page.lines().filter_map(|x| x.strip_prefix("  When: ")).map(rfc3339_key).collect();
+        let sorted = whens.iter().all(|w| w.is_some()) && whens.windows(2).all(|w| w[0] <= w[1]);
+        tok.push_str(&format!(",e{},o{}", whens.len(), sorted as u8));
+    }
+    tok
+}
+
 pub fn run_case(line: &str) -> String {
     let mut evs: Vec<Ev> = vec![];
     let mut hang = false;
@@ -252,6 +324,7 @@ pub fn run_case(line: &str) -> String {
             "B" => evs.push(Ev::Bytes(unhex(op.get(1).copied().unwrap_or("")))),
             "E" => { let (n, k) = KINDS.iter().find(|(n, _)| *n == op[1]).expect("error kind"); evs.push(Ev::Err(*k, n)); }
             "Z" => hang = op[1] == "hang",
+            "G" => evs.push(Ev::Get),
             _ => panic!("bad op {:?}", op),
         }
     }
@@ -277,8 +350,23 @@ fn run_once(evs: Vec<Ev>, hang: bool, full: bool) -> String {
     let st = stats.clone();
     rt.block_on(async move {
         let (hang_tx, hang_rx) = tokio::sync::oneshot::channel();
-        let reader = ScriptReader { evs, idx: 0, off: 0, hang, eof_reads: 0, stats: st.clone(), hang_tx: Some(hang_tx) };
+        let n_gets = evs.iter().filter(|e| matches!(e, Ev::Get)).count();
+        let (get_tx, mut get_rx) = tokio::sync::mpsc::unbounded_channel();
+        let gets = Arc::new(GetShared { served: AtomicUsize::new(0), waker: Mutex::new(None), tx: get_tx });
+        let reader = ScriptReader { evs, idx: 0, off: 0, hang, eof_reads: 0, stats: st.clone(), hang_tx: Some(hang_tx),
+                                    gets: Some(gets.clone()), gets_passed: 0, get_asked: false };
         let fx = Arc::new(StreamFixture::new("198.51.100.1:11019".parse().unwrap()).await);
+        // the HTTP client: serves one `G` at a time while the reader is silent
+        let got: Arc<Mutex<Vec<String>>> = Arc::new(Mutex::new(vec![]));
+        let (fx4, got2, gets2) = (fx.clone(), got.clone(), gets.clone());
+        let client = tokio::spawn(async move {
+            while get_rx.recv().await.is_some() {
+                let tok = ask_pages(&fx4, full).await;
+                got2.lock().unwrap().push(tok);
+                gets2.served.fetch_add(1, SeqCst);
+                if let Some(w) = gets2.waker.lock().unwrap().take() { w.wake(); }
+            }
+        });
         let fx2 = fx.clone();
         // as unit.rs accept_config does: the session is a spawned task; a panic kills the task only
         let mut task = tokio::spawn(async move { fx2.run(reader).await });
@@ -292,6 +380,7 @@ fn run_once(evs: Vec<Ev>, hang: bool, full: bool) -> String {
         let res = tokio::time::timeout(std::time::Duration::from_secs(3), &mut task).await;
         if res.is_err() { task.abort(); }
         term.abort();
+        client.abort();
         let mut out: Vec<String> = vec![];
         match res {
             Err(_) => out.push(if st.wedged.load(SeqCst) { "WEDGE".into() } else { "STUCK".into() }),
@@ -318,6 +407,10 @@ fn run_once(evs: Vec<Ev>, hang: bool, full: bool) -> String {
             if eos_ok && no_other && all { "ok" } else { "MISSING" }
         } else { "-" };
         out.push(format!("cover:{cover}"));
+        {
+            let got = got.lock().unwrap();
+            for k in 0..n_gets { out.push(got.get(k).cloned().unwrap_or_else(|| "g:-".into())); }
+        }
         if full {
             out.push("|".into());
             out.push(format!("phase:{}", fx.phase().await));
@@ -359,7 +452,7 @@ fn malformed_update() -> Bytes {
     Bytes::from(v)
 }
 
-/// descriptor: I | X | S.i | U.i.e | D.i | R.i.af.a.ps.wf.ws | E.i.f | N.i   (ps/ws: 1+2+3 or -)
+/// descriptor: I | X | S.i | U.i.e | D.i | R.i.af.a.ps.wf.ws | E.i.f | N.i | RB.i.hex   (ps/ws: 1+2+3 or -)
 pub fn render(d: &str) -> Bytes {
     let f: Vec<&str> = d.split('.').collect();
     let n = |i: usize| f[i].parse::<u32>().unwrap();
@@ -373,6 +466,8 @@ pub fn render(d: &str) -> Bytes {
         "R" => enc::mk_raw_route_monitoring_msg(&pph(n(1) as usize), update_bytes(n(2), n(3), &l(4), n(5), &l(6))),
         "E" => enc::mk_raw_route_monitoring_msg(&pph(n(1) as usize), eor_bytes(n(2))),
         "N" => enc::mk_raw_route_monitoring_msg(&pph(n(1) as usize), malformed_update()),
+        // RB.i.<hex>: the octets of a BGP UPDATE (from C04's proved encoder, oracle c04enc) in a Route Monitoring message of peer i
+        "RB" => enc::mk_raw_route_monitoring_msg(&pph(n(1) as usize), Bytes::from(unhex(f[2]))),
         _ => panic!("bad descriptor {d}"),
     }
 }
@@ -387,7 +482,7 @@ fn gauge_probe() {
     runtime().block_on(async move {
         let (hang_tx, hang_rx) = tokio::sync::oneshot::channel();
         let stats = Arc::new(Stats::default());
-        let reader = ScriptReader { evs, idx: 0, off: 0, hang: true, eof_reads: 0, stats, hang_tx: Some(hang_tx) };
+        let reader = ScriptReader { evs, idx: 0, off: 0, hang: true, eof_reads: 0, stats, hang_tx: Some(hang_tx), gets: None, gets_passed: 0, get_asked: false };
         let fx = Arc::new(StreamFixture::new("198.51.100.1:11019".parse().unwrap()).await);
         let before = gauge(&fx);
         let fx2 = fx.clone();
